@@ -19,52 +19,9 @@ func c10Extra(c *Ctx) {
 	p := c.P
 	pk := p.Pkg("private/bufpkg/bufmodule")
 	info := pk.TypesInfo
-	c.Rule("ARGMAX-LOOP", "the newest-commit selection updates its running maximum together with the selected element", 1)
 	c.Rule("OWNER-LOOP", "all owners of an import path are counted before deciding (no early exit from the owner loop)", 1)
 	c.Rule("CLOSURE-COMPLETE", "the ls-files walk follows the imports of every file it marks", 1)
-	// (a) arg-max
-	if fr := p.Func("private/bufpkg/bufmodule", "selectRemoteAddedModuleForOpaqueIDIgnoreTargeting"); fr != nil {
-		n, okAll := 0, true
-		ast.Inspect(fr.Decl.Body, func(x ast.Node) bool {
-			ifs, ok := x.(*ast.IfStmt)
-			if !ok {
-				return true
-			}
-			call, ok := ast.Unparen(ifs.Cond).(*ast.CallExpr)
-			if !ok || len(call.Args) != 1 {
-				return true
-			}
-			sel, ok := call.Fun.(*ast.SelectorExpr)
-			if !ok || (sel.Sel.Name != "After" && sel.Sel.Name != "Before") {
-				return true
-			}
-			cand, best := identObj(info, sel.X), identObj(info, call.Args[0])
-			if cand == nil || best == nil {
-				return true
-			}
-			n++
-			updatesBest, selects := false, false
-			for _, st := range ifs.Body.List {
-				if as, ok := st.(*ast.AssignStmt); ok {
-					for i, l := range as.Lhs {
-						if identObj(info, l) == best && i < len(as.Rhs) && identObj(info, as.Rhs[i]) == cand {
-							updatesBest = true
-						} else if identObj(info, l) != best {
-							selects = true
-						}
-					}
-				}
-			}
-			if !(updatesBest && selects) {
-				okAll = false
-			}
-			return true
-		})
-		c.Ob("ARGMAX-LOOP", "selectRemoteAddedModuleForOpaqueIDIgnoreTargeting", fr.Decl.Pos(), okAll && n > 0, true,
-			"%d comparison(s) `candidate.After(best)`: the branch both records the selected module and sets best = candidate (otherwise later candidates are compared with a stale time): %v", n, okAll)
-	} else {
-		c.Fail("ARGMAX-LOOP", "selectRemoteAddedModuleForOpaqueIDIgnoreTargeting", token.NoPos, "not found")
-	}
+	ruleArgmax(c, "ARGMAX", []*packages.Package{pk}, 1)
 	// (b) owner loop
 	if fr := p.Func("private/bufpkg/bufmodule", "moduleSet.getModuleForFilePathUncached"); fr != nil {
 		ok, found := true, false
